@@ -147,12 +147,24 @@ class G:
         return ['%swrite(\'!\');' % ind]
 
     def program(self):
+        # int parameters of the entry point: values come from the command line
+        nparams = self.r.choice([0, 0, 1, 2, 3])
+        params = ['p%d' % i for i in range(nparams)]
+        self.scopes[0] += params
+        self.args = [str(self.r.choice([0, 1, 2, 3, 7, -1, -2, 100, 255, 256, 32767, -32768, 65535, 65536, 2147483647,
+                                        -2147483648, self.r.randrange(-1000, 1000)])) for _ in params]
         body = self.block(3, n=self.r.randint(2, 8))
-        return 'empty @is_you() {\n' + '\n'.join(body) + '\n}\n'
+        return 'empty @is_you(%s) {\n' % ', '.join('int ' + q for q in params) + '\n'.join(body) + '\n}\n'
 
 
 def gen(seed, faults=0.05):
     return G(random.Random(seed), faults).program()
+
+
+def gen_with_args(seed, faults=0.05):
+    g = G(random.Random(seed), faults)
+    src = g.program()
+    return src, g.args
 
 
 if __name__ == '__main__':
